@@ -649,6 +649,9 @@ pub struct DSys {
     /// (advance, fruitless next) rounds since the last hand-out or answer
     idle_adv: u8,
     last_adv: bool,
+    /// an answer was delivered for which the composite returned `false` (the path that asked
+    /// had already finished): another path may then keep waiting for that peer until its timeout
+    orphaned: bool,
 }
 static D_MAX_INFLIGHT: AtomicU64 = AtomicU64::new(0);
 static D_FINISHED: AtomicU64 = AtomicU64::new(0);
@@ -659,7 +662,7 @@ impl DSys {
         let config = ClosestPeersIterConfig { parallelism: NonZeroUsize::new(cfg.par).unwrap(), num_results: NonZeroUsize::new(cfg.nr).unwrap(), peer_timeout: Duration::from_nanos(T_NS) };
         let known: Vec<KBucketKey<PeerId>> = (0..cfg.n).filter(|i| cfg.init & (1 << i) != 0).map(|i| KBucketKey::from(peers[i as usize])).collect();
         let st = (0..cfg.n).map(|i| if cfg.init & (1 << i) != 0 { P::Known } else { P::Unknown }).collect();
-        DSys { cfg: cfg.clone(), peers, it: Some(Disjoint::with_config(config, target().into(), known)), t0: Instant::now(), now: 0, st, finished: false, hist: vec![], noop_next: 0, idle_adv: 0, last_adv: false }
+        DSys { cfg: cfg.clone(), peers, it: Some(Disjoint::with_config(config, target().into(), known)), t0: Instant::now(), now: 0, st, finished: false, hist: vec![], noop_next: 0, idle_adv: 0, last_adv: false, orphaned: false }
     }
     fn inflight(&self) -> usize {
         self.st.iter().filter(|p| matches!(p, P::Waiting(d) if *d > self.now)).count()
@@ -673,7 +676,8 @@ impl System for DSys {
         }
         let mut v = vec![];
         // a next() that handed out nothing is not repeated without an intervening event
-        if self.noop_next == 0 {
+        let unanswered = self.st.iter().any(|p| matches!(p, P::Waiting(_)));
+        if self.noop_next == 0 || (!unanswered && !self.orphaned && self.noop_next as usize <= self.cfg.par + 1) {
             v.push(Act::Next);
         }
         for (i, p) in self.st.iter().enumerate() {
@@ -748,6 +752,12 @@ impl System for DSys {
                             self.idle_adv += 1;
                         }
                         let unanswered = self.st.iter().any(|p| matches!(p, P::Waiting(_)));
+                        // Strict rule: every request was answered, every answer was accepted
+                        // (returned true), yet next() keeps answering "waiting" at a fixed now:
+                        // some path waits for a request that does not exist.
+                        if !unanswered && !self.orphaned && self.noop_next as usize > self.cfg.par + 1 {
+                            return Err(format!("disjoint-phantom-wait :: next() = {r:?} {} times in a row at a fixed time although every handed-out request has been answered and every answer was accepted (peer states {:?})", self.noop_next, self.st));
+                        }
                         if self.idle_adv as usize > self.cfg.par + 1 {
                             return Err(format!("disjoint-stuck :: next() = {r:?} without progress ({} calls in a row); unanswered requests: {unanswered}, full timeouts elapsed since the last event: {} (peer states {:?})", self.noop_next, self.idle_adv, self.st));
                         }
@@ -766,7 +776,9 @@ impl System for DSys {
                 // are told. The peer *has* answered, which is what the result oracle needs.
                 if matches!(a, Act::Succ(_)) {
                     let ans: Vec<PeerId> = (0..self.cfg.n).filter(|j| self.cfg.answers[i] & (1 << j) != 0).map(|j| self.peers[j as usize]).collect();
-                    let _ = it.on_success(&peer, ans);
+                    if !it.on_success(&peer, ans) {
+                        self.orphaned = true;
+                    }
                     self.st[i] = P::Succ;
                     for j in 0..self.cfg.n as usize {
                         if self.cfg.answers[i] & (1 << j) != 0 && self.st[j] == P::Unknown {
@@ -774,7 +786,9 @@ impl System for DSys {
                         }
                     }
                 } else {
-                    let _ = it.on_failure(&peer);
+                    if !it.on_failure(&peer) {
+                        self.orphaned = true;
+                    }
                     self.st[i] = P::Fail;
                 }
             }
